@@ -29,13 +29,12 @@ func (c *Ctx) lexerPrims() (next, back, peek *ssa.Function) {
 	if c.lexPrims[0] != nil {
 		return c.lexPrims[0], c.lexPrims[1], c.lexPrims[2]
 	}
-	L := c.A.LexerT
 	writesPos := func(f *ssa.Function) bool {
 		for _, b := range f.Blocks {
 			for _, in := range b.Instrs {
 				if st, ok := in.(*ssa.Store); ok {
 					if fa, ok := st.Addr.(*ssa.FieldAddr); ok {
-						if pt, ok := fa.X.Type().Underlying().(*types.Pointer); ok && types.Identical(pt.Elem(), L) && fieldName(L, fa.Field) == "currentPos" {
+						if pt, ok := fa.X.Type().Underlying().(*types.Pointer); ok && inFam(c.A.LexerFam, pt.Elem()) && fieldName(pt.Elem(), fa.Field) == "currentPos" {
 							return true
 						}
 					}
@@ -53,7 +52,7 @@ func (c *Ctx) lexerPrims() (next, back, peek *ssa.Function) {
 		if pt, ok := t.(*types.Pointer); ok {
 			t = pt.Elem()
 		}
-		if !types.Identical(t, L) || f.Signature.Params().Len() != 0 {
+		if !inFam(c.A.LexerFam, t) || f.Signature.Params().Len() != 0 {
 			continue
 		}
 		res := f.Signature.Results()
@@ -586,6 +585,12 @@ func (c *Ctx) symStr(v ssa.Value, depth int) string {
 		return paramRef(v)
 	case *ssa.Field:
 		return c.symStr(v.X, depth+1) + "." + fieldName(v.X.Type(), v.Field)
+	case *ssa.FieldAddr:
+		// the address of an embedded struct stands for the outer object (its
+		// fields and methods are promoted)
+		if isEmbeddedField(v) {
+			return c.symStr(v.X, depth+1)
+		}
 	case *ssa.UnOp:
 		if v.Op == token.MUL {
 			if fa, ok := v.X.(*ssa.FieldAddr); ok {
@@ -625,6 +630,16 @@ func (c *Ctx) symStr(v ssa.Value, depth int) string {
 		return "phi"
 	}
 	return "?"
+}
+
+// isEmbeddedField: fa addresses an embedded (anonymous) struct field.
+func isEmbeddedField(fa *ssa.FieldAddr) bool {
+	t := fa.X.Type()
+	if p, ok := t.Underlying().(*types.Pointer); ok {
+		t = p.Elem()
+	}
+	st, ok := t.Underlying().(*types.Struct)
+	return ok && fa.Field < st.NumFields() && st.Field(fa.Field).Embedded()
 }
 
 func fieldName(t types.Type, i int) string {
@@ -682,7 +697,7 @@ func ruleDecode(c *Ctx) *RuleResult {
 			want := `"\""+(*Lexer).consumeUntil(param#0,34)#0+"\""`
 			// the delimiter scanner is recognised by its shape (a lexer method taking the
 			// closing rune), not by its name
-			if regexp.MustCompile(`^"\\""\+\(\*Lexer\)\.\w+\(param#0,34\)#0\+"\\""$`).MatchString(got) {
+			if regexp.MustCompile(`^"\\""\+\(\*\w+\)\.\w+\((param#0|\?),34\)#0\+"\\""$`).MatchString(got) {
 				r.ok("quoted-identifier", c.pos(calls[0].Pos()), fname(fn), "decoder input is "+got)
 			} else {
 				r.viol("quoted-identifier", c.pos(calls[0].Pos()), fname(fn), "decoder input is "+got+", wanted "+want)
@@ -718,7 +733,7 @@ func ruleDecode(c *Ctx) *RuleResult {
 		}
 		want := "strings.Replace((*Lexer).consumeUntil(param#0,96)#0,\"\\\\`\",\"`\",-1)"
 		alt := "strings.ReplaceAll((*Lexer).consumeUntil(param#0,96)#0,\"\\\\`\",\"`\")"
-		unnamed := regexp.MustCompile(`\(\*Lexer\)\.\w+\(param#0,96\)`).ReplaceAllString(got, "(*Lexer).consumeUntil(param#0,96)")
+		unnamed := regexp.MustCompile(`\(\*\w+\)\.\w+\((param#0|\?),96\)`).ReplaceAllString(got, "(*Lexer).consumeUntil(param#0,96)")
 		if got == want || got == alt || unnamed == want || unnamed == alt {
 			r.ok("json-literal-text", pos, fname(fn), "token text is "+got)
 		} else if got == "" {
@@ -1329,7 +1344,18 @@ func init() { register("T-BUF", ruleScratchBuffer) }
 
 func ruleScratchBuffer(c *Ctx) *RuleResult {
 	r := &RuleResult{Doc: "the lexer's scratch buffer is empty whenever a scanner starts: every lexer method that writes it resets it on every path to a non-failing return, and tokenize starts from a fresh lexer or a reset buffer", Floor: 1}
-	st := c.A.LexerT.Underlying().(*types.Struct)
+	// the member of the lexer's struct family that holds the buffer
+	bufOwner := c.A.LexerT
+	for T := range c.A.LexerFam {
+		if m, ok := fieldRoles[T]; ok {
+			for _, role := range m {
+				if role == "buf" {
+					bufOwner = T
+				}
+			}
+		}
+	}
+	st := bufOwner.Underlying().(*types.Struct)
 	isBufType := func(t types.Type) bool {
 		n, ok := t.(*types.Named)
 		if !ok || n.Obj().Pkg() == nil {
@@ -1354,7 +1380,7 @@ func ruleScratchBuffer(c *Ctx) *RuleResult {
 			return false
 		}
 		pt, ok := f.Signature.Recv().Type().(*types.Pointer)
-		return ok && types.Identical(pt.Elem(), c.A.LexerT)
+		return ok && types.Identical(pt.Elem(), bufOwner)
 	}
 	for _, fi := range bufFields {
 		fieldN := st.Field(fi).Name()
@@ -1401,7 +1427,7 @@ func ruleScratchBuffer(c *Ctx) *RuleResult {
 					if !ok || fa.Field != fi {
 						continue
 					}
-					if pt, ok := fa.X.Type().Underlying().(*types.Pointer); !ok || !types.Identical(pt.Elem(), c.A.LexerT) {
+					if pt, ok := fa.X.Type().Underlying().(*types.Pointer); !ok || !types.Identical(pt.Elem(), bufOwner) {
 						continue
 					}
 					if !isLexerMethod(fn) || fa.X != fn.Params[0] {
